@@ -317,6 +317,7 @@ def run_e2_once(name, names, body, pre=None, positive=(), expect_raise=None, max
             if c.verdict == "violated" and d["witness"] is None:
                 d["witness"] = c.witness if c.witness else dict(p.sample)
                 d["alt_witness"] = dict(p.sample)
+                d["more"] = list(getattr(c, "more", []) or [])
                 d["detail"] = c.detail
     res["path_status"] = statuses
     res["n_claims"] = n_claims
@@ -330,7 +331,7 @@ def run_e2_once(name, names, body, pre=None, positive=(), expect_raise=None, max
         if not d["violated"]:
             continue
         done = False
-        for w in (d["witness"], d.get("alt_witness")):
+        for w in [d["witness"], d.get("alt_witness")] + list(d.get("more") or []):
             if w is None:
                 continue
             rep = replay_concrete(conc, names, w, rtol)
